@@ -142,6 +142,7 @@ inductive Body
   | endTx                     -- fn returns; deferred tx.commit()
   | finish (replyErr : Bool)  -- the closure returns (having written an error reply or not)
   | panic
+  | bpop (neg : Bool)         -- an embedded caller calls n.BLPop / n.BRPop(timeout, …) (neg: timeout < 0)
 deriving DecidableEq, Repr, Inhabited
 
 inductive Call
@@ -262,6 +263,8 @@ def tstep (s : Shared) (t : Tid) (l : Loc) (ch : Choice) : Out :=
     | .beginTx => some (s, { l with pc := .b1 }, [])                                   -- tx := &Tx{…}; defer tx.commit()
     | .finish e => some (s, { l with pc := .bret, panicking := false, rerr := e }, [])
     | .panic => some (s, { l with pc := .bret, panicking := true }, [])
+    | .bpop ng =>     -- the embedded API: blockingPop takes the shared side for its looks like a served BLPOP does
+      if l.ctx == .embedded then some (s, { l with pc := .p0, inLook := true, neg := ng, found := false }, []) else none
     | _ => none
   | .b1 =>  -- the transaction's first verifTrace (look / commit …): the tracer reports txb
     if s.active.any (·.1 == ch.fresh) then none else
